@@ -58,11 +58,15 @@ NoMaster == [pre |-> {}, cr |-> "-", sr |-> "-", sh |-> <<>>]
 JunkMaster == [pre |-> {"junk"}, cr |-> "-", sr |-> "-", sh |-> <<>>]      \* keys nobody holds
 NoFin    == [role |-> "-", master |-> NoMaster, tr |-> <<>>]
 
+\* A handshake body is measured in Units equal parts, so that the fragments of a 2-way and of a 3-way split
+\* (cut points 1/3, 1/2, 2/3) are unions of units: fragment = [lo, hi).
+Units == 6
+
 \* One record = one datagram (rustrtc sends one record per datagram).
 \* t: CH HVR SH CERT SKE CR SHD CV CKE CCS FIN APP ; ms: message_seq (0 for non-handshake)
-\* frag/nfrag: fragment i of n (0/1: unfragmented)
+\* frag/nfrag: fragment i of an n-way split (0/1: unfragmented), covering units lo..hi-1
 Msg(t, ms) ==
-  [t |-> t, ms |-> ms, frag |-> 0, nfrag |-> 1,
+  [t |-> t, ms |-> ms, frag |-> 0, nfrag |-> 1, lo |-> 0, hi |-> Units,
    rnd |-> "-", ck |-> FALSE, prof |-> "-", cert |-> "-", dh |-> "-",
    sigBy |-> "-", sigCr |-> "-", sigSr |-> "-", sigDh |-> "-", sigTr |-> <<>>, sigN |-> "-",
    fin |-> NoFin, enc |-> NoMaster, bad |-> FALSE]
@@ -80,7 +84,7 @@ Plain(t) == t \in {"CH", "HVR", "SH", "CERT", "SKE", "CR", "SHD", "CV", "CKE"}
 ---------------------------------------------------------------------------
 (* Endpoint state                                                           *)
 
-NoFrag == [ms |-> 0, seq |-> <<>>]
+NoFrag == [ms |-> 0, seq |-> <<>>]        \* seq: the [lo, hi) pieces buffered for message ms, in arrival order
 
 \* cert: the certificate the endpoint presents; key: the private key it signs with (KeyOf(cert) for an
 \* honest endpoint, the adversary's for an endpoint that presents somebody else's certificate)
@@ -239,25 +243,31 @@ Accept(s, m) ==
                       !.tr = IF m.t \in {"FIN", "HVR"} THEN s.tr ELSE Append(s.tr, Dig(m))]
   IN Dispatch(s1, m)
 
-Whole(m, bad) == [m EXCEPT !.frag = 0, !.nfrag = 1, !.bad = bad]
+Whole(m, bad) == [m EXCEPT !.frag = 0, !.nfrag = 1, !.lo = 0, !.hi = Units, !.bad = bad]
 
-\* Fragment reassembly. Intended: by offset, complete when every fragment is present.
-\* ReassemblyIgnoresOffset: bodies appended in arrival order, buffer reset on offset 0 or a new
-\* message_seq, "complete" as soon as enough bytes are buffered (fragments of one split are equal-sized).
+\* Fragment reassembly. Intended: by offset - complete when the pieces received for this message_seq cover
+\* the whole body, in any order, with repeats and overlaps (pieces of differently cut retransmissions mix).
+\* ReassemblyIgnoresOffset: bodies appended in arrival order, buffer reset on offset 0 or a new message_seq,
+\* "complete" as soon as enough bytes are buffered.
 \* FragStep gives the buffer after the fragment, whether the message is complete and whether the
 \* reassembled bytes differ from the message that was sent.
+Piece(m) == [lo |-> m.lo, hi |-> m.hi]
+Covered(b) == UNION {b[i].lo .. (b[i].hi - 1) : i \in 1..Len(b)}
+RECURSIVE Size(_)
+Size(b) == IF b = <<>> THEN 0 ELSE (Head(b).hi - Head(b).lo) + Size(Tail(b))
+InOrder(b) == /\ b # <<>> /\ b[1].lo = 0 /\ b[Len(b)].hi = Units
+              /\ \A i \in 1..(Len(b) - 1) : b[i].hi = b[i + 1].lo
 FragStep(s, m) ==
-  IF m.nfrag = 1 THEN [buf |-> s.frag, complete |-> TRUE, bad |-> m.bad]
+  IF m.lo = 0 /\ m.hi = Units THEN [buf |-> s.frag, complete |-> TRUE, bad |-> m.bad]
   ELSE IF Dev("ReassemblyIgnoresOffset")
-  THEN LET b0 == IF s.frag.ms # m.ms \/ m.frag = 1 THEN <<>> ELSE s.frag.seq
-           b1 == Append(b0, m.frag)
-       IN IF Len(b1) < m.nfrag
+  THEN LET b0 == IF s.frag.ms # m.ms \/ m.lo = 0 THEN <<>> ELSE s.frag.seq
+           b1 == Append(b0, Piece(m))
+       IN IF Size(b1) < Units
           THEN [buf |-> [ms |-> m.ms, seq |-> b1], complete |-> FALSE, bad |-> FALSE]
-          ELSE [buf |-> [ms |-> m.ms, seq |-> <<>>], complete |-> TRUE,
-                bad |-> (m.bad \/ b1 # [i \in 1..m.nfrag |-> i])]
+          ELSE [buf |-> [ms |-> m.ms, seq |-> <<>>], complete |-> TRUE, bad |-> (m.bad \/ ~InOrder(b1))]
   ELSE LET b0 == IF s.frag.ms # m.ms THEN <<>> ELSE s.frag.seq
-           b1 == IF m.frag \in Range(b0) THEN b0 ELSE Append(b0, m.frag)
-       IN IF Range(b1) # 1..m.nfrag
+           b1 == IF Piece(m) \in Range(b0) THEN b0 ELSE Append(b0, Piece(m))
+       IN IF Covered(b1) # 0..(Units - 1)
           THEN [buf |-> [ms |-> m.ms, seq |-> b1], complete |-> FALSE, bad |-> FALSE]
           ELSE [buf |-> NoFrag, complete |-> TRUE, bad |-> m.bad]
 
